@@ -330,3 +330,26 @@ def run(ctx):
         cm = [describe_operand(at, c.args[0]) for c in at.calls if c.via_name == "cmp"]
         r.check(len(cm) == 2 and cm[0].endswith(".name") and cm[1].endswith(".value"), "Attr/name-then-value", where(at), "attributes are ordered by name, then by value (both fields that derived Eq compares)",
                 "Attr::compare compares %s" % cm)
+
+    with ctx.rule("C19.R8", "T7", "Text - the leaf every name, key and text value is compared by - defines ==, the order and the hash through as_str() alone", floor=4) as r:
+        # Value::Text, attribute names and slot keys all end in Text's own impls; they agree with each other exactly when all of them look at the
+        # same projection of the representation (the string), never at the representation itself (inline array vs heap string, padding, length)
+        md = ctx.crate("swimos_model")
+        want = {"core::cmp::PartialEq>::eq": ("eq", 2), "core::cmp::Ord>::cmp": ("cmp", 2), "core::cmp::PartialOrd>::partial_cmp": (None, 2), "core::hash::Hash>::hash": ("hash", 1)}
+        for suf, (op, n_) in sorted(want.items()):
+            bs = [b for b in md.all_bodies() if b.defpath == "<swimos_model::text::Text as " + suf]
+            if len(bs) != 1:
+                raise AnchorMissing("impl of %s for Text" % suf)
+            b = ctx.saw(bs[0])
+            nm = suf.split("::")[-1]
+            reps = [si for si in b.switches_on(lambda p, si: True) if si.get("kind") == "disc" and "TextInner" in (si.get("adt") or "")]
+            ops = [c for c in b.calls if c.name in ("eq", "ne", "cmp", "partial_cmp", "hash", "lt", "le", "gt", "ge", "write", "hash_slice") and c.name != "as_str"]
+            deleg = [c for c in ops if (c.self_adt or "").endswith("text::Text") and [describe_operand(b, a) for a in c.args[:2]] == ["self", "other"]]
+            PROJ = ("as_str(", "as_bytes(", "as_ref(", "borrow(", "deref(")
+            def through(d):
+                # the operand is the string view of self / other (possibly viewed again as bytes), never a part of the representation
+                return any(p_ in d for p_ in PROJ) and "<Small>" not in d and "<Large>" not in d and ".0" not in d.replace("(self)", "").replace("(other)", "")
+            via_str = [c for c in ops if all(through(describe_operand(b, a)) for a in c.args[:n_])]
+            r.check(not reps and len(ops) >= 1 and all(c in deleg or c in via_str for c in ops), "Text::%s/through-as_str" % nm, where(b), "%s looks at as_str() only (%s)" % (nm, ", ".join(sorted({c.name for c in ops}))),
+                    "Text::%s looks at the representation (%s): two texts that are == as strings can compare or hash differently, or two different strings compare Equal (e.g. `key` and `key\\0` in the zero-padded inline form) - "
+                    "and with them Value::Text, attribute names and slot keys" % (nm, "match on TextInner" if reps else [(c.name, [describe_operand(b, a)[:30] for a in c.args[:2]]) for c in ops if c not in deleg and c not in via_str][:2]))
